@@ -330,7 +330,7 @@ def c_expected_types(c, tt, nsup):
             continue
         ct = {"int_phidden": "int*", "tdint_v": "int", "tdstr_in": "constchar*", "int_v": "int", "long_v": "long", "double_v": "double", "bool_v": "bool", "enum_v": "int",
               "int_pin": "constint*", "int_pout": "int*", "int_pinout": "int*", "int_ref": "int*", "dbl_cref": "constdouble*",
-              "dbl_pout": "double*", "bool_pinout": "bool*", "cstr_in": "constchar*", "str_cref": "constchar*",
+              "dbl_pout": "double*", "bool_pinout": "bool*", "cstr_in": "constchar*", "str_cref": "constchar*", "str_v": "char*",
               "str_ref_inout": "char*", "str_ref_out": "char*", "pt_v": "SUB_pt", "pt_pinout": "SUB_pt*",
               "pt_cref": "constSUB_pt*", "arr_in": "constdouble*", "arr_n": "int", "arr_out": "double*", "out_n": "int"}[k]
         out.append(ct)
